@@ -129,6 +129,12 @@ def gen_one(rng, i, tier):
         inp["thr"] = thr
         inp["rates"] = [_clip(_rate(rng)) for _ in range(rng.randint(1, 5))]
         inp["arg"] = rng.choice(["scalar", "array", "array", "array2d"])
+        # deep, well-conditioned tails: FPR far above the negative mean, FNR far below the positive mean (rates
+        # down to 1e-150; a survival function written as 1 - cdf has lost every digit there)
+        inp["tail_z"] = [rng.choice([rng.uniform(4.7, 9.0), rng.uniform(6.0, 12.0), rng.uniform(9.0, 30.0)])
+                         for _ in range(rng.randint(1, 3))]
+        inp["tail_r"] = [10 ** (-rng.choice([rng.uniform(6, 12), rng.uniform(9, 20), rng.uniform(15, 150)]))
+                         for _ in range(rng.randint(1, 3))]
     elif kind == "roc":
         inp["ds"] = _dataset(rng)
         inp["mode"] = rng.choice(["fnr", "fpr", "fnr", "fpr", "fnr", "fpr", "both", "neither"])
@@ -147,6 +153,14 @@ def gen_one(rng, i, tier):
             inp[rng.choice(["fnr", "fpr"])] = 0.0
         inp["s1"] = rng.choice([1, 2, 5, 10, 40, 100, 1000, rng.randint(1, 500)])
         inp["s2"] = rng.choice([1, 2, 5, 10, 40, 100, 1000, rng.randint(1, 500)])
+        if rng.random() < 0.35:
+            # decimal rates with supports that make support / rate a whole number (the documented use: "10 false
+            # negatives at FNR 0.1 = 100 positives"); most decimal rates are not exact doubles
+            for rk, sk in (("fnr", "s1"), ("fpr", "s2")):
+                if rng.random() < 0.7:
+                    dec = rng.choice([0.1, 0.01, 0.001, 0.05, 0.2, 0.4, 0.02, 0.3, 0.6, 0.7, 0.07, 0.15, 0.35, 0.003])
+                    inp[rk] = dec
+                    inp[sk] = max(1, int(round(dec * rng.choice([10, 20, 100, 200, 1000, 3000]))))
         if rng.random() < 0.6:
             inp["sigma_pos"] = rng.choice([1.0, 0.05, 20.0, 3.75, rng.uniform(0.1, 10)])
         if rng.random() < 0.6:
@@ -403,6 +417,36 @@ def _build_normal(inp):
               rt_thrA=ql(rt_thrA), rt_thrB=ql(rt_thrB))
     inp["_evals"] = 4 * len(thr) + 4 * len(rates)
     ctx = f"NormalDataset({dsd}) arg={arg}"
+    tail_lines = []
+    tz, tr = [float(z) for z in inp.get("tail_z", [])], [float(x) for x in inp.get("tail_r", [])]
+    if tz or tr:
+        ta, tb_ = [mu_pos - sp * z for z in tz], [mu_neg + sn * z for z in tz]
+        fa, fb = _apply(d.fnr, ta, arg, pre, "fnr"), _apply(d.fpr, tb_, arg, pre, "fpr")
+        xa, xb = _apply(d.threshold_at_fnr, tr, arg, pre, "threshold_at_fnr"), _apply(d.threshold_at_fpr, tr, arg, pre, "threshold_at_fpr")
+        if None in (fa, fb, xa, xb):
+            return _empty(inp, pre, tags)
+        bad = [(w, z_, v) for w, zs_, vs in (("fnr", ta, fa), ("fpr", tb_, fb)) for z_, v in zip(zs_, vs)
+               if not (math.isfinite(v) and 0 < v < 1)]
+        if bad or not _finite(xa + xb):
+            pre.append(Issue("PROPFAIL", "inverse", f"{ctx}: a rate 4.7 to 30 sigma out in its tail is not a number in (0,1) "
+                             f"(so it cannot be inverted): {bad[:3]}; thresholds for {tr}: {xa} {xb}", "normal/tail/range"))
+            return _empty(inp, pre, tags)
+        rt_ta, rt_tb = _apply(d.threshold_at_fnr, fa, arg, pre, "threshold_at_fnr"), _apply(d.threshold_at_fpr, fb, arg, pre, "threshold_at_fpr")
+        rt_ra, rt_rb = _apply(d.fnr, xa, arg, pre, "fnr"), _apply(d.fpr, xb, arg, pre, "fpr")
+        if None in (rt_ta, rt_tb, rt_ra, rt_rb):
+            return _empty(inp, pre, tags)
+        if not _finite(rt_ta + rt_tb + rt_ra + rt_rb):
+            pre.append(Issue("PROPFAIL", "inverse", f"{ctx}: non-finite round trip in the tail: thresholds {ta} -> {rt_ta}, "
+                             f"{tb_} -> {rt_tb}; rates {tr} -> {rt_ra}, {rt_rb}", "normal/tail/finite"))
+            return _empty(inp, pre, tags)
+        tail_lines.append(line("tailinv", eps=q(EPS), ra=ql(tr), rt_ra=ql(rt_ra), rb=ql(tr), rt_rb=ql(rt_rb),
+                               ta=ql(ta), rt_ta=ql(rt_ta), tb=ql(tb_), rt_tb=ql(rt_tb)))
+        tail_ctx = [("inv_fnr", "fnr(threshold_at_fnr(r)) = r (relative)", tr, rt_ra),
+                    ("inv_fpr", "fpr(threshold_at_fpr(r)) = r (relative)", tr, rt_rb),
+                    ("inv_thr_fnr", "threshold_at_fnr(fnr(t)) = t", ta, rt_ta),
+                    ("inv_thr_fpr", "threshold_at_fpr(fpr(t)) = t", tb_, rt_tb)]
+        inp["_evals"] += 2 * len(tz) + 2 * len(tr)
+        tags.append("deep-tail")
 
     def judge(outs):
         o = outs[0]
@@ -421,9 +465,15 @@ def _build_normal(inp):
             if o["spec." + key] != "1":
                 iss.append(Issue("DISAGREE", key, f"{ctx}: impl {obs} model {[float(x) for x in common.pfracs(o[mk])]} "
                                  f"(thresholds {thr}, rates {rates})", f"normal/{key}"))
+        if tail_lines:
+            o2 = outs[1]
+            for key, what, a, b in tail_ctx:
+                if o2["spec." + key] != "1":
+                    iss.append(Issue("PROPFAIL", "inverse", f"{ctx}: deep in the tail {what} fails: inputs {a} round trip {b}",
+                                     f"normal/tail/{key}"))
         return iss
 
-    case = Case(ID, inp, [ln], judge, tuple(tags), inp["_skipped"], pre)
+    case = Case(ID, inp, [ln] + tail_lines, judge, tuple(tags), inp["_skipped"], pre)
     return case
 
 
@@ -548,6 +598,21 @@ def _build_frommetrics(inp):
     tb["pinv_in"], tb["pinv_out"] = ql(pin), ql(pout)
     ln = line("frommetrics", **args, **tb)
     inp["_evals"] = 6
+    # Implied sample sizes without a rounding question: when the rate, read as the decimal the caller wrote
+    # (repr), divides the support exactly (10 / 0.1 = 100) and the correctly rounded double quotient is that same
+    # whole number, the class size must be exactly that number (a floor taken on the exact binary quotient,
+    # 10 // 0.1 == 99.0, is one sample short).
+    exact_lines, exact_what = [], []
+    if obs is not None:
+        for nm, rate_, s_, k_ in (("positives", fnr, s1, obs["nbpos"]), ("negatives", fpr, s2, obs["n"] - obs["nbpos"])):
+            if rate_ > 0:
+                dec = Fraction(repr(rate_))
+                kq = Fraction(s_) / dec
+                if kq.denominator == 1 and float(Fraction(s_) / Fraction(rate_)) == float(kq) and kq < 2**52:
+                    exact_lines.append(line("implied", s=s_, r=q(dec), k=int(k_)))
+                    exact_what.append((nm, rate_, s_, int(k_), int(kq)))
+    if exact_lines:
+        tags.append("frommetrics-exact-quotient")
 
     def judge(outs):
         o = outs[0]
@@ -580,9 +645,13 @@ def _build_frommetrics(inp):
                              f"{m_pos}, {m_neg}", "frommetrics/n"))
         elif c1 and c2 and not common.close(obs["p_pos"], Fraction(o["m_ppos"])):
             iss.append(Issue("DISAGREE", "frommetrics-ppos", f"{ctx}: p_pos={obs['p_pos']} model {o['m_ppos']}", "frommetrics/ppos"))
+        for o2, (nm, rate_, s_, k_, kq) in zip(outs[1:], exact_what):
+            if o2["spec.implied"] != "1":
+                iss.append(Issue("PROPFAIL", "frommetrics-sizes", f"{ctx}: {k_} {nm} for support {s_} at rate {rate_!r}: the implied "
+                                 f"sample size is {kq}", "frommetrics/sizes-exact"))
         return iss
 
-    case = Case(ID, inp, [ln], judge, tuple(tags), 0, pre)
+    case = Case(ID, inp, [ln] + exact_lines, judge, tuple(tags), 0, pre)
     return case
 
 
